@@ -2,7 +2,7 @@
    decided by evaluation (finite domain: the classes and aliases that exist). *)
 From Coq Require Import String.
 From Coq Require Import ZArith List Bool Lia.
-From Verif Require Import C08.Model C08.ProofsMachine C08.ProofsTree C08.ProofsBuild.
+From Verif Require Import C08.Model C08.ProofsMachine C08.ProofsTree C08.ProofsBuild C08.ProofsNested.
 From Verif Require Import gen.C08_Registry.
 Import ListNotations.
 
@@ -105,5 +105,39 @@ Definition annotations_agree_b (l : list (Z * string * Z * option Z)) : bool :=
 Lemma reg_annotations_agree_l : annotations_agree_b reg_annotated = true.
 Proof. vm_compute. reflexivity. Qed.
 
-(* no two classes of one family share an alias (a consequence of
-   registry_resolves, stated for the record) *)
+(* ------------------------------------------------------------------ *)
+(** * the hypotheses of the nested-configuration theorem are satisfiable *)
+
+Local Open Scope string_scope.
+
+(* {"name": "stft", "bank": {"alias": "tri", "num_filts": 5, "scaling_function": "mel"},
+    "window_function": {"name": "gamma", "order": 2}} - built on the generated
+   registry when these classes and aliases exist; the statement is then checked by
+   evaluation, and is skipped (trivially true) if the registry no longer has them *)
+Definition example_cfg (stft tri mel gamma : Z) : cfg :=
+  Cfg stft "stft" (SName 1)
+      [("bank", Nested (Cfg tri "tri" (SAlias 0)
+                            [("num_filts", Plain (VNum "5"));
+                             ("scaling_function", Nested (Cfg mel "mel" SString []))]));
+       ("window_function", Nested (Cfg gamma "gamma" (SName 5) [("order", Plain (VNum "2"))]))].
+
+Definition id_of (name : string) : option Z :=
+  match find (fun p => String.eqb (snd p) name) reg_names with
+  | Some p => Some (fst p)
+  | None => None
+  end.
+
+Definition example_check : bool :=
+  match id_of "ShortTimeFourierTransformFrameComputer", id_of "TriangularOverlappingFilterBank",
+        id_of "MelScaling", id_of "GammaWindow", id_of "FrameComputer" with
+  | Some stft, Some tri, Some mel, Some gamma, Some fam =>
+    let g := example_cfg stft tri mel gamma in
+    match explicit reg 5 g, from_arg reg 8 fam (to_json g) with
+    | Ok (VInst c1 f1), Ok (VInst c2 f2) => Z.eqb c1 stft && Z.eqb c2 stft
+    | _, _ => false
+    end
+  | _, _, _, _, _ => true
+  end.
+
+Example nested_build_example : example_check = true.
+Proof. vm_compute. reflexivity. Qed.
